@@ -944,3 +944,93 @@ CONCRETE["bounded:chain_lookup_history"] = {
              "table per look-up; the resolved sector list and the bytes read through it are compared",
     "timeout_s": 10.0,
 }
+
+
+# ================================================================================== C20 (AKAI programs, keygroup chains, velocity zones)
+def _build_c20p(inputs):
+    L = _lib()
+    import importlib
+    import random
+
+    def run():
+        st = importlib.import_module("selftest_akai_program")
+        pw = importlib.import_module("akai_program_writer")
+        rng = random.Random(inputs["seed"])
+        progs = []
+        files = [_sample(n, 10, k + 1) for k, n in enumerate(["SMP A", "SMP B", "SMP C", "SMP D"])]
+        expanded = expand_akai({"partitions": [{"volumes": [_vol("PV", files)]}]})
+        for k, (slots, zones) in enumerate(inputs["programs"]):
+            extra = {}
+            if inputs.get("decoys"):
+                used = set(slots)
+                extra["decoy_slots"] = {s: bytes(rng.randrange(256) for _ in range(150)) for s in range(max(slots) + 1) if s not in used}
+            prog = st.make_program(inputs["seed"] * 10 + k, f"PRG {k}", slots, zones, **extra)
+            progs.append((f"PRG {k}", prog))
+            expanded["partitions"][0]["volumes"][0]["files"].append({"name": f"PRG {k}", "type": inputs.get("ptype", 0xF0),
+                                                                     "data": pw.program_body_bytes(prog)})
+        raw = L.aw.build_akai_image(expanded)
+        out = []
+        with L.Workdir() as w:
+            img = w.file("img.akai", raw)
+            for name, prog in progs:
+                o, e = L.do_ls(img, f"A:/PV/{name}")
+                if e is not None:
+                    out.append({"name": name, "error": type(e).__name__})
+                    continue
+                parsed = pw.parse_ls_output(o)
+                exp = pw.expected_listing(prog, name, inputs.get("ptype", 0xF0))
+                out.append({"name": name, "truncated": bool(parsed.get("truncated")), "diff": pw.compare_listing(exp, parsed["tree"])[:6],
+                            "not_found": "was not found" in o})
+        return out
+    return {"call": run, "env": {}}
+
+
+def _oracle_c20p(inputs, kind, val, env):
+    if kind != "return":
+        return []
+    bad = []
+    for r in val:
+        if r.get("error") or r.get("not_found"):
+            bad.append(f"program-is-listed({r['name']}: {r.get('error') or 'not found'})")
+        elif not r["truncated"] and r["diff"]:
+            bad.append(f"states-the-stored-value({r['name']}: {r['diff'][:3]})")
+    return bad
+
+
+def _small_c20p(tier, seed, shard=(0, 1)):
+    import itertools
+    import random
+    rnd = random.Random(15000 + seed)
+    names = ["SMP A", "SMP B", "SMP C", "SMP D"]
+    cases = []
+    # every order of three keygroups over slots 0..2 and over slots with gaps (backward links, decoys)
+    for perm in itertools.permutations([0, 1, 2]):
+        cases.append({"programs": [[list(perm), [[names[0]], [names[1], names[2]], []]]], "decoys": False})
+    for perm in itertools.permutations([0, 2, 4]):
+        cases.append({"programs": [[list(perm), [[names[3]], [], [names[0], names[1], names[2], names[3]]]]], "decoys": True})
+    cases.append({"programs": [[[0], [[names[0]]]], [[2], [[names[1], names[2]]]], [[1, 0], [[], [names[3]]]]], "decoys": True})
+    cases.append({"programs": [[[1, 0, 2], [[names[0]], [names[1]], [names[2]]]]], "decoys": False, "ptype": 0x70})
+    for _ in range(4 if tier == "quick" else 60):
+        nk = rnd.randint(1, 3)
+        slots = rnd.sample(range(0, 5), nk)
+        zones = [rnd.sample(names, rnd.randint(0, 3)) for _ in range(nk)]
+        cases.append({"programs": [[slots, zones]], "decoys": rnd.random() < 0.7})
+    for k, c in enumerate(cases):
+        c["seed"] = 100 + k
+        if k % shard[1] == shard[0]:
+            yield c
+
+
+@contract("e2e:C20-programs", props=["C20"], abstract=True)
+def _c20p(c):
+    pass
+
+
+CONCRETE["e2e:C20-programs"] = {
+    "build": _build_c20p, "small": _small_c20p, "oracle": _oracle_c20p, "shards": 4,
+    "nontrivial": lambda i, s: s["kind"] == "return",
+    "bound": "AKAI programs written by the independent program writer: every order of three keygroups over slots {0,1,2} and {0,2,4} (backward "
+             "next-keygroup addresses, decoy blocks in unused slots), 0..4 active velocity zones, S1000 and S3000 program types, 4/60 random programs; "
+             "every header field, the keygroup count, every keygroup field in chain order and every non-empty zone compared with `ls`",
+    "timeout_s": 120.0, "budget_quick": 200, "budget_thorough": 1200,
+}
